@@ -168,7 +168,8 @@ func (r *Router) match(method, path string) (rt *Route, ps Params) {
 	if r.enableCaching && r.cachedRoutes != nil {
 		route, ok := r.cachedRoutes.Get(method + path)
 		if ok {
-			return route, route.params
+			// Notice: returns a copy, the cached params must not be shared with the handlers of a request.
+			return route, route.params.clone()
 		}
 	}
 
